@@ -27,7 +27,7 @@ VARIANTS = [
          [(CB, "            if expression in context:\n                return context[expression]\n            raise JaqalError(f\"Identifier {expression} not found in context\")", "            if expression in context:\n                return context[expression]\n            return expression")],
          ("C14.2", "unknown-identifier"), P),
     fire("c14-anonymous-gate-with-injected-pulses",
-         [(CB, "        is_anonymous_gate_allowed = (\n            self.inject_pulses is None\n        ) and not self.autoload_pulses", "        is_anonymous_gate_allowed = not self.autoload_pulses")],
+         [(CB, "        return (self.inject_pulses is None) and not self.autoload_pulses", "        return not self.autoload_pulses")],
          ("C14.2", "anonymous-gate"), P),
     fire("c14-arity-check-removed",
          [(GD, "        if len(self.parameters) != len(params):\n            raise JaqalError(\n                f\"Bad argument count: expected {len(self.parameters)}, found {len(params)}\"\n            )\n", "")],
